@@ -291,7 +291,7 @@ static void leg_edits(void)
 /* ------------------------------------------------------------------ leg 3: command-line parsing */
 typedef struct { char sh; const char *sd, *lg; int np; } odecl_t;
 static const odecl_t decl[3] = { { 'a', NULL, "alpha", 0 }, { 'b', "beta", "bravo", 1 }, { 'c', "cc", "charlie", 2 } };
-static const char *TOK[] = { "-a", "--alpha", "-b", "-beta", "--bravo", "-c", "-cc", "--charlie", "x", "y", "--", "-ab", "-ca", "-z", "--zulu" };
+static const char *TOK[] = { "-a", "--alpha", "-b", "-beta", "--bravo", "-c", "-cc", "--charlie", "x", "y", "--", "-ab", "-ca", "-z", "--zulu", "-bc", "-cb" };   /* -bc / -cb: two parameter-taking options in one combined token (seeded change C39-1) */
 #define NTOK ((int)(sizeof(TOK) / sizeof(TOK[0])))
 static int g_maxtok = 5;
 static int m_lookup(const char *name) { for (int k = 0; k < 3; k++) if ((decl[k].lg && !strcmp(name, decl[k].lg)) || (decl[k].sd && !strcmp(name, decl[k].sd)) || (strlen(name) == 1 && name[0] == decl[k].sh)) return k; return -1; }
